@@ -29,10 +29,14 @@ LEVEL_TEXT = ('Coq theorems over an executable Gallina model of the state tracki
               'see coq/C10/Props.v; the model is tied to the source by regenerated tables (mode-argument letters, sigils, mode-letter sets, '
               '_nickSetters, handler inventory, hostmask regex shape) and by a differential run after every message against the real Irc object.')
 LEVEL_NOTE = ('Trusted: Coq kernel, gen_tables.py, extraction + OCaml driver, the Python harness, the reference server as specification. '
-              'The trace-level simulation theorem C10_simulation_trace is proved for ALL histories of dom (any length; induction with the lookup-level '
-              'relation Inv and the server invariant skeys, one step lemma per action kind incl. the full join burst for populated channels, NAMES/WHO '
-              'refresh, multi-target JOIN/PART/KICK, NICK, QUIT, MODE, reconnect); outside dom (non-canonical int mode parameters, finding F10c; '
-              'NAMES without multi-prefix) only the differential run applies.  The join burst is delivered atomically and created is one constant.')
+              'The trace-level simulation theorem C10_simulation_trace is proved for ALL histories of dom (any length), incl. replies in flight about a channel '
+              'the bot has left (ALate) and two networks in one process (C10_two_networks).  NOT modelled / outside the claim: (a) ISUPPORT (IrcState.do005) -- the model '
+              'uses the default CHANTYPES/CHANNELLEN, rfc1459 case folding and the static mode-argument tables; on a network with CASEMAPPING=ascii, or with PREFIX / CHANMODES '
+              'letters outside those tables, the implementation diverges from the server (findings C10.F12, C10.F13, checked by hand-written expectations only); '
+              '(b) invite/exception lists: +I is filed as a single-valued mode, +e / +q are ignored; (c) WHOX 354 and server-originated MODE/KICK/TOPIC are modelled in the bot '
+              'and exercised by the raw stream and two expectations, but the reference server never emits them; (d) within one join burst the messages are delivered atomically '
+              '(no third-party event between JOIN and the 353/324/329/367/352 of the same channel), created is one constant, topic metadata (333), BATCH / netsplit batches, '
+              'account/away tracking and IrcState.copy/pickle are not looked at; (e) non-canonical int mode parameters (finding F10c) and NAMES without multi-prefix are outside dom.')
 TECHNIQUE = 'Coq proof (induction over lists/states) + regenerated tables + extracted reference server and bot model run beside the real Irc object'
 EXPLANATION = 'C10: bot model coq/C10/Bot.v, reference server coq/C10/Spec.v; theorems in coq/C10/Props.v'
 
@@ -189,7 +193,7 @@ def describe(diffs):
 
 
 # ---------------------------------------------------------------- actions
-TAGS = ['connect', 'join', 'part', 'kick', 'quit', 'nick', 'mode', 'topic', 'chghost', 'names', 'who', 'reset', 'isupport']
+TAGS = ['connect', 'join', 'part', 'kick', 'quit', 'nick', 'mode', 'topic', 'chghost', 'names', 'who', 'reset', 'isupport', 'late']
 
 
 def act_wire(a):
@@ -288,7 +292,7 @@ def gen_history(rng, trig):
             acts.append(['names', chan(), rng.random() < 0.5, rng.random() < 0.5])
         elif r < 0.92:
             acts.append(['who', chan()])
-        elif r < 0.935:
+        elif r < 0.93:
             # the bot's own multi-target JOIN of 2-3 channels nobody is on, then events confined to ONE of them each
             new_chans = []
             for _ in range(rng.randint(2, 3)):
@@ -313,6 +317,11 @@ def gen_history(rng, trig):
                 else:
                     acts.append(['join', sp(who), [sp(c)]])
                     acts.append(['part', sp(who), [sp(c)]])
+        elif r < 0.955:
+            # the bot leaves (or is kicked) while the answers to its NAMES / MODE / MODE +b / WHO are still in flight
+            c = chan()
+            acts.append(rng.choice([['part', 'test', [c]], ['kick', nick(), c, ['test']]]))
+            acts.append(['late', sp(c)])
         elif r < 0.975:
             acts.append(['reset'])
             acts.append(['join', 'test', [rng.choice(chans)]])
@@ -373,7 +382,9 @@ def _class(which):
     return pred
 
 
-CLASSES = {'noncanonical_int_arg': _class('intarg')}
+CLASSES = {'noncanonical_int_arg': _class('intarg'),
+           'casemapping_ascii': lambda inp: inp.get('op') == 'expect' and inp.get('name') == 'casemapping_ascii',
+           'isupport_param_modes': lambda inp: inp.get('op') == 'expect' and inp.get('name') == 'isupport_param_modes'}
 
 
 # ---------------------------------------------------------------- running one history
@@ -663,8 +674,56 @@ def buildable(inp):
     return True
 
 
+# ---------------------------------------------------------------- hand-written expectations
+# Conformant-server scenarios that depend on ISUPPORT tokens the reference server does not model (CASEMAPPING, PREFIX,
+# CHANMODES).  Each: raw messages + what the server's state is for one channel afterwards (users / ops under the
+# network's OWN case rules).  Checked directly on the implementation on every run; two of them are recorded findings.
+EXPECT = [
+    {'op': 'expect', 'name': 'casemapping_ascii', 'msgs': [['irc.srv', '005', ['test', 'CASEMAPPING=ascii', 'are supported']], ['test!bot@h', 'JOIN', ['#a']],
+        ['a[!u1@h1', 'JOIN', ['#a']], ['a{!u2@h2', 'JOIN', ['#a']], ['a[!u1@h1', 'PART', ['#a']]],
+     'chan': '#a', 'users': ['a{', 'test'], 'ops': []},
+    {'op': 'expect', 'name': 'isupport_param_modes', 'msgs': [['irc.srv', '005', ['test', 'PREFIX=(qaohv)~&@%+', 'CHANMODES=beI,kfL,lj,psmntirRcOAQKVCuzNSMTGZ', 'are supported']],
+        ['test!bot@h', 'JOIN', ['#a']], ['alice!u@h', 'JOIN', ['#a']], ['bob!u@h', 'JOIN', ['#a']], ['op!u@h', 'MODE', ['#a', '+ao', 'alice', 'bob']],
+        ['op!u@h', 'MODE', ['#a', '+fv', '[5t]:10', 'alice']]],
+     'chan': '#a', 'users': ['alice', 'bob', 'test'], 'ops': ['bob'], 'voices': ['alice']},
+    {'op': 'expect', 'name': 'server_origin', 'msgs': [['test!bot@h', 'JOIN', ['#a']], ['alice!u@h', 'JOIN', ['#a']], ['irc.srv', 'MODE', ['#a', '+ov', 'alice', 'alice']],
+        ['irc.srv', 'MODE', ['#a', '-o', 'ALICE']], ['irc.srv', 'KICK', ['#a', 'test,alice', 'x']]],
+     'chan': '#a', 'users': None, 'ops': None},
+    {'op': 'expect', 'name': 'whox', 'msgs': [['test!bot@h', 'JOIN', ['#a']], ['alice!u@h', 'JOIN', ['#a']],
+        ['irc.srv', '354', ['test', '1', 'ux', '1.2.3.4', 'hx', 'alice', 'H@', 'acct', 'real name']]],
+     'chan': '#a', 'users': ['alice', 'test'], 'ops': [], 'hostmask': ['alice', 'alice!ux@hx']},
+]
+
+
+def run_expect(inp):
+    """returns a failure detail or None"""
+    _env()
+    irc = new_irc()
+    for m in inp['msgs']:
+        if not impl_feed(irc, m):
+            return None
+    d = impl_dump(irc)
+    rec = dict((c[0], c) for c in d[2]).get(inp['chan'])
+    if inp['users'] is None:
+        return None if rec is None else 'the bot still records %s' % inp['chan']
+    if rec is None:
+        return 'the bot does not record %s' % inp['chan']
+    bad = []
+    for i, what in ((1, 'users'), (2, 'ops'), (4, 'voices')):
+        if inp.get(what) is not None and sorted(rec[i]) != sorted(inp[what]):
+            bad.append('%s of %s: bot %r, server %r' % (what, inp['chan'], sorted(rec[i]), sorted(inp[what])))
+    if inp.get('hostmask') and dict(d[3]).get(inp['hostmask'][0]) != inp['hostmask'][1]:
+        bad.append('hostmask of %s: bot %r, server %r' % (inp['hostmask'][0], dict(d[3]).get(inp['hostmask'][0]), inp['hostmask'][1]))
+    return '; '.join(bad) or None
+
+
 # ---------------------------------------------------------------- corpus
 CORPUS = [
+    # old witness of finding C10.F11 (repaired): replies in flight after the bot was kicked / parted re-created the channel
+    {'op': 'hist', 'mp': True, 'uh': False, 'acts': [['connect', 'op', 'u', 'h'], ['join', 'op', ['#a']], ['mode', 'op', '#a', [[True, 'n', None], [True, 't', None]]],
+                                                    ['join', 'test', ['#a']], ['kick', 'op', '#a', ['test']], ['late', '#a']]},
+    {'op': 'hist', 'mp': True, 'uh': True, 'acts': [['connect', 'op', 'u', 'h'], ['join', 'op', ['#a']], ['topic', 'op', '#a', 'hello'], ['join', 'test', ['#A']],
+                                                   ['part', 'test', ['#a']], ['late', '#A'], ['late', '#nowhere'], ['join', 'test', ['#a']], ['late', '#a']]},
     # channel names at the length bound (seeded change C10_6: ircutils.isChannel's `len(s) <= channellen` became `<`, so every
     # MODE on a channel of exactly CHANNELLEN characters was dropped): default CHANNELLEN 50 -- 49, 50 and (refused) 51 characters
     {'op': 'hist', 'mp': True, 'uh': False, 'acts': [['connect', 'alice', 'u', 'h'], ['join', 'test', ['#' + 'x' * 48, '#' + 'y' * 49, '#' + 'z' * 50]],
@@ -721,6 +780,11 @@ def run(ctx):
         trig = set() if i % 4 else {'intarg'}
         hs.append(gen_history(rng, trig))
     check_histories(ctx, hs)
+    for x in EXPECT:
+        ctx.case('expectation', x)
+        bad = run_expect(x)
+        if bad:
+            ctx.fail(x, bad)
     check_pairs(ctx, CORPUS_PAIRS + [gen_pair(rng) for _ in range(ctx.n(40))])
     raws = CORPUS_RAW + [r for r in (gen_raw(rng) for _ in range(ctx.n(1200))) if buildable(r)]
     e = _st
@@ -788,6 +852,8 @@ def replay(ctx, inp):
     if inp.get('op') == 'pair':
         f = pair_failure(inp)
         return f['detail'] if f else None
+    if inp.get('op') == 'expect':
+        return run_expect(inp)
     return None
 
 
